@@ -200,3 +200,79 @@ Theorem no_deadlock_reachable : forall freq frac rows progs s,
   (forall t, t < s_n s -> enabled s t = false) -> all_finished s.
 Proof. intros. apply no_deadlock; [eapply inv_reachable; eauto | assumption]. Qed.
 
+(* ------------------------------------------------------------------ witnesses against the unguarded statements
+   (schedules found by the scheduler on the real code, replayed here) *)
+Definition w_setup : list op := [Get 1%Z; Get 2%Z].
+Definition w_prefix : list nat := repeat 0 58.
+
+(* create || get of the id being created: two live instances of row 4 *)
+Definition w_get_sched : list nat := w_prefix ++ repeat 2 20 ++ repeat 1 10 ++ repeat 2 8.
+Lemma created_vs_get_witness :
+  match run (init 100 2 [1%Z; 2%Z; 3%Z] [w_setup; [Create]; [Get 4%Z]]) w_get_sched with
+  | Some s => all_finished_b s = true /\ two_objects s = true
+  | None => False
+  end.
+Proof. vm_compute. split; reflexivity. Qed.
+
+(* create || expireAll: RuntimeError (dictionary changed size during iteration) *)
+Definition w_xall_sched : list nat := w_prefix ++ repeat 2 11 ++ repeat 1 10 ++ repeat 2 2.
+Lemma created_vs_expireall_witness :
+  match run (init 100 2 [1%Z; 2%Z; 3%Z] [w_setup; [Create]; [XAll]]) w_xall_sched with
+  | Some s => all_finished_b s = true /\ bad_exception s = true
+  | None => False
+  end.
+Proof. vm_compute. split; reflexivity. Qed.
+
+(* create between the loop of expireAll and `self.cache = {}`: the new object is lost from the cache *)
+Definition w_lost_sched : list nat := w_prefix ++ repeat 2 12 ++ repeat 1 10 ++ repeat 2 2.
+Lemma created_lost_witness :
+  match run (init 100 2 [1%Z; 2%Z; 3%Z] [w_setup; [Create]; [XAll]]) w_lost_sched with
+  | Some s => all_finished_b s = true /\ lost_object s = true
+  | None => False
+  end.
+Proof. vm_compute. split; reflexivity. Qed.
+
+(* two sqlmeta.expireAll: RuntimeError in the unlocked iteration of getAll *)
+Definition w_mex_sched : list nat := w_prefix ++ repeat 2 27 ++ repeat 1 59 ++ [2].
+Lemma getall_witness :
+  match run (init 100 2 [1%Z; 2%Z; 3%Z] [w_setup; [MExAll]; [MExAll]]) w_mex_sched with
+  | Some s => all_finished_b s = true /\ bad_exception s = true
+  | None => False
+  end.
+Proof. vm_compute. split; reflexivity. Qed.
+
+Lemma refute_inv_full : forall freq frac rows progs sched,
+  match run (init freq frac rows progs) sched with
+  | Some s => all_finished_b s = true /\ two_objects s = true
+  | None => False
+  end -> ~ C09_inv_full.
+Proof.
+  intros freq frac rows progs sched W F.
+  pose proof (run_reach sched (init freq frac rows progs)) as R.
+  destruct (run (init freq frac rows progs) sched) as [s |]; [| contradiction].
+  destruct W as (_ & W). apply (two_objects_unsafe s W). apply (F freq frac rows progs). now apply R.
+Qed.
+
+Theorem inv_full_refuted : ~ C09_inv_full.
+Proof. exact (refute_inv_full 100%Z 2 [1%Z; 2%Z; 3%Z] [w_setup; [Create]; [Get 4%Z]] w_get_sched created_vs_get_witness). Qed.
+
+Lemma refute_quiescent_full : forall freq frac rows progs sched,
+  match run (init freq frac rows progs) sched with
+  | Some s => all_finished_b s = true /\ bad_exception s = true
+  | None => False
+  end -> ~ C09_quiescent_full.
+Proof.
+  intros freq frac rows progs sched W F.
+  pose proof (run_reach sched (init freq frac rows progs)) as R.
+  destruct (run (init freq frac rows progs) sched) as [s |]; [| contradiction].
+  destruct W as (Wf & W). specialize (R s eq_refl).
+  assert (A : all_finished s).
+  { intros t Ht. unfold all_finished_b in Wf. rewrite forallb_forall in Wf. apply Wf. apply in_seq. lia. }
+  destruct (F _ _ _ _ s R A) as (_ & N & _).
+  unfold bad_exception in W. apply existsb_exists in W. destruct W as (a & Ha & W).
+  destruct a as [| x | |]; try discriminate.
+  destruct (in_res_list s _ Ha) as (t & Rt). rewrite (N t x Rt) in W. discriminate.
+Qed.
+
+Theorem quiescent_full_refuted : ~ C09_quiescent_full.
+Proof. exact (refute_quiescent_full 100%Z 2 [1%Z; 2%Z; 3%Z] [w_setup; [Create]; [XAll]] w_xall_sched created_vs_expireall_witness). Qed.
